@@ -103,6 +103,13 @@ func (l *c17Inner) Addr() net.Addr { return c17Addr{} }
 
 var c17LLTimeout = int64(20 * time.Second)
 
+func init() {
+	// replay / shrink runs happen only after a failure was found: do not wait 20 s per process there
+	if vfReplayOnly() {
+		atomic.StoreInt64(&c17LLTimeout, int64(3*time.Second))
+	}
+}
+
 func c17LLPoll(cond func() bool) bool {
 	start := time.Now()
 	for i := 0; ; i++ {
@@ -110,7 +117,7 @@ func c17LLPoll(cond func() bool) bool {
 			return true
 		}
 		if time.Since(start) > time.Duration(atomic.LoadInt64(&c17LLTimeout)) {
-			atomic.StoreInt64(&c17LLTimeout, int64(300*time.Millisecond))
+			atomic.StoreInt64(&c17LLTimeout, int64(100*time.Millisecond))
 			return false
 		}
 		if i < 200 {
@@ -145,6 +152,7 @@ func (r *c17LLRun) sync(push byte) {
 	prevLen := len(r.snap.Waiters)
 	if !c17LLPoll(func() bool { r.snap = r.ll.sem.VfC17Snapshot(); return r.snap.T() == r.T }) {
 		r.desync = true
+		r.T = r.snap.T() // go on from what the semaphore really holds
 	}
 	if push != 0 {
 		if len(r.snap.Waiters) == prevLen+1 {
